@@ -283,7 +283,7 @@ def main(argv):
     bad = ob.bad + [b for r in res for b in r[1]]
     groups = {}
     for oid, detail in bad:
-        groups.setdefault(oid.split("[")[0], []).append((oid, detail))
+        groups.setdefault(oid.split("[")[0].split("{")[0], []).append((oid, detail))
     nk = nk_b = 0
     for gname, items in sorted(groups.items()):
         oid, detail = items[0]
